@@ -17,6 +17,7 @@ mod sched;
 mod shrink;
 mod special;
 mod spec;
+mod twin;
 mod values;
 mod world;
 
